@@ -90,9 +90,15 @@ func (d *deepCopier) deepCopyIface(in, out reflect.Value) {
 	inElem := in.Elem()
 	switch inElem.Kind() {
 	case reflect.Ptr:
-		newVal := reflect.New(inElem.Type().Elem())
+		if inElem.IsNil() {
+			// typed nil pointer; there's nothing to follow.
+			return
+		}
+		// go through deepCopyPtr so pointers we've already seen (cycles and
+		// shared pointees) resolve to their existing copy.
+		newVal := reflect.New(inElem.Type()).Elem()
+		d.deepCopyPtr(inElem, newVal)
 		out.Set(newVal)
-		d.deepCopy(inElem.Elem(), newVal.Elem())
 		return
 	case reflect.Struct:
 		newVal := reflect.New(inElem.Type())
@@ -103,8 +109,11 @@ func (d *deepCopier) deepCopyIface(in, out reflect.Value) {
 		if inElem.IsNil() {
 			return
 		}
-		out.Set(reflect.MakeMapWithSize(inElem.Type(), inElem.Len()))
-		d.deepCopy(inElem, out.Elem())
+		// copy into a settable map value so deepCopyMap can consult and
+		// record its memo (out.Elem() is not settable).
+		newMap := reflect.New(inElem.Type()).Elem()
+		d.deepCopyMap(inElem, newMap)
+		out.Set(newMap)
 		return
 	case reflect.Slice:
 		if inElem.IsNil() {
